@@ -47,6 +47,9 @@ def make_overlay(tag, extra=None, fakes=()):
     ov = os.path.join(VERIF, "overlay")
     rep[os.path.join(REPO, "internal/pkg/midi/device/zz_verif_export.go")] = os.path.join(ov, "device/zz_verif_export.go")
     rep[os.path.join(REPO, "internal/pkg/input/zz_verif_export.go")] = os.path.join(ov, "input/zz_verif_export.go")
+    rep[os.path.join(REPO, "internal/pkg/midi/driver/alsa/alsa.go")] = os.path.join(ov, "alsa/alsa_stub.go")
+    rep[os.path.join(REPO, "cmd/hidi/zz_verif_hook.go")] = os.path.join(ov, "hidi/zz_verif_hook.go")
+    rep[os.path.join(REPO, "cmd/hidi/zz_verif_log.go")] = os.path.join(ov, "hidi/zz_verif_log.go")
     hroot = os.path.join(VERIF, "harness")
     for f in _walk_files(hroot):
         if f.endswith(".go"):
